@@ -220,9 +220,11 @@ public:
 
         bool advance_suspend_lk(Handle h, awaiter *awt) {
             subreg_t &l = _regs[h];
-            if (l._kicked || _closed) return false;
+            if (l._kicked) return false;
+            //the position must advance even if the publisher has been closed meanwhile,
+            //otherwise the previous item is read again (or an unread item is lost)
             l._pos++;
-            if (l._pos == _pos) {
+            if (l._pos == _pos && !_closed) {
                 l._awt = awt;
                 return true;
             } else {
